@@ -37,7 +37,7 @@ func init() {
 				return 1_500_000
 			}, Run: c06Arc,
 				Min: map[string]int64{"arcs": 100000, "relative": 20000, "absolute": 20000, "scaled_up_radii": 10000, "large_arc": 20000, "sweep_positive": 20000, "sweep_negative": 20000,
-					"zero_radius": 5000, "exact_semicircles": 2000, "exact_quarter_circles": 2000, "rotation_whole_quarter_turns": 50000, "rotation_of_many_turns": 50000, "reset_before_setrasterizer": 50000, "rectangle_changed_after_reset": 50000, "renderer_used_for_an_earlier_graphic": 50000, "lattice_mode": 20000, "lattice_endpoint_equals_pen_pixels": 5000, "cubics_1": 1000, "cubics_2": 1000, "cubics_3": 1000, "cubics_4": 1000, "negative_radius": 5000, "through_destination_logger": 50000, "last_arc_of_an_encoded_run": 100000, "encoded_run_position_above_16": 30000, "arc_directly_after_other_arcs": 100000, "degenerate_arc_before_the_arc": 50000}},
+					"zero_radius": 5000, "exact_semicircles": 2000, "exact_quarter_circles": 2000, "rotation_whole_quarter_turns": 50000, "rotation_of_many_turns": 50000, "reset_before_setrasterizer": 50000, "rectangle_changed_after_reset": 50000, "renderer_used_for_an_earlier_graphic": 50000, "lattice_mode": 20000, "targets_of_thousands_of_pixels": 30000, "lattice_endpoint_equals_pen_pixels": 5000, "cubics_1": 1000, "cubics_2": 1000, "cubics_3": 1000, "cubics_4": 1000, "negative_radius": 5000, "through_destination_logger": 50000, "last_arc_of_an_encoded_run": 100000, "encoded_run_position_above_16": 30000, "arc_directly_after_other_arcs": 100000, "degenerate_arc_before_the_arc": 50000}},
 		},
 	})
 }
@@ -92,6 +92,11 @@ func c06Arc(c *run.Ctx, idx uint64) {
 	h := int(math.Max(1, math.Round(vh*r.LogUniform(0.2, 5))))
 	if r.Chance(1, 6) {
 		w, h = r.Range(1, 300), r.Range(1, 300)
+	}
+	if r.Chance(1, 10) {
+		// targets of thousands of pixels (a recording rasterizer has no pixels to pay for)
+		w, h = r.Pick(1024, 2048, 4096, 8192, 16384)+r.Range(-1, 1), r.Pick(1024, 2048, 4096, 8192, 16384)+r.Range(-1, 1)
+		c.Count("targets_of_thousands_of_pixels", 1)
 	}
 	if lattice {
 		w, h = int(vw)*r.Pick(1, 2, 3, 4, 8), int(vh)*r.Pick(1, 2, 3, 4, 8)
